@@ -2,7 +2,7 @@
 # Re-run every kept seeded change against the checks as they stand now, several at a time: each in its own scratch
 # worktree handed to the check through PYTHONPATH (tools/try_seeded.sh in its default mode, which never touches
 # /repo's working tree).  Writes seeded/<id>/recheck.txt; PAR=<n> runs n at a time; ONLY="C05 C06" limits the
-# properties.  Checks regenerate lean/KatdalModel/Generated/*.lean from the tree they are pointed at, so two
+# properties; OUT=<name> writes seeded/<id>/<name> instead (e.g. a pass under another VERIF_SEED).  Checks regenerate lean/KatdalModel/Generated/*.lean from the tree they are pointed at, so two
 # overlapping runs on DIFFERENTLY patched trees that both touch a generated table (flag names, error maps) can
 # break each other's build (exit 2, CHECK-BROKEN): re-run those singly.  The pass to the letter of the brief (patch applied to /repo itself) is tools/final_repo_pass.sh.
 cd /verif || exit 2
@@ -16,11 +16,11 @@ own=m['breaks_property']
 txt=(m.get('check_result','')+' '+m.get('caught_by_check','')) if str(m.get('caught_by_check','')).startswith('partly') else ''
 print(' '.join(sorted({c for c in re.findall(r'C[0-9][0-9]', txt) if c != own})))")
   for try in 1 2 3; do
-    tools/try_seeded.sh "/verif/$d" "$prop" $extra 2>&1 | grep -E "^SUMMARY|^   C..: " > "$d/recheck.txt"
-    grep -q SUMMARY "$d/recheck.txt" && break
+    tools/try_seeded.sh "/verif/$d" "$prop" $extra 2>&1 | grep -E "^SUMMARY|^   C..: " > "$d/${OUT:-recheck.txt}"
+    grep -q SUMMARY "$d/${OUT:-recheck.txt}" && break
     sleep $((RANDOM % 5 + 1))
   done
-  echo "$1: $(grep SUMMARY $d/recheck.txt | sed 's/.*clean=/clean=/')"
+  echo "$1: $(grep SUMMARY $d/${OUT:-recheck.txt} | sed 's/.*clean=/clean=/')"
 }
 export -f one
 ls seeded | grep '^C' | { if [ -n "${ONLY:-}" ]; then grep -E "^($(echo $ONLY | tr ' ' '|'))-"; else cat; fi; } | xargs -P "${PAR:-4}" -I{} bash -c 'one {}'
